@@ -34,6 +34,22 @@ func (g *Ghost) globalFact(c *FnCtx, gl *ssa.Global, term string) string {
 		if f, ok := v.X.(*ssa.Function); ok {
 			return fmt.Sprintf("(and (> %s 0) (= %s %d))", term, c.cloFn(term), g.e.fnID(f))
 		}
+	case *ssa.Call:
+		// package-level error values: var ErrX = status.Error(codes.Y, "...") / errors.New("...")
+		if callee := v.Call.StaticCallee(); callee != nil {
+			switch fullName(callee) {
+			case "errors.New", "fmt.Errorf":
+				return "(not (= (i-tag " + term + ") 0))"
+			case "google.golang.org/grpc/status.Error", "google.golang.org/grpc/status.Errorf":
+				if cst, ok := v.Call.Args[0].(*ssa.Const); ok && cst.Value != nil {
+					code := c.ty.ConstTerm(cst.Type(), cst.Value)
+					c.sc.Decl("errcode", "(declare-fun |errcode| (Iface) Int)")
+					if code != "0" {
+						return "(and (not (= (i-tag " + term + ") 0)) (= (|errcode| " + term + ") " + code + "))"
+					}
+				}
+			}
+		}
 	}
 	return ""
 }
@@ -107,6 +123,95 @@ func (e *Engine) evalGhostCall(c *FnCtx, env *Env, x *ECall) (Val, bool) {
 		srt := strings.TrimPrefix(x.Fun, "cbres")
 		t := map[string]types.Type{"Iface": types.NewInterfaceType(nil, nil), "Int": tMath, "Bool": tBool}[srt]
 		return Val{T: t, E: "(select " + c.heapGet(env.st, c.comp("ghost$cbres$"+srt+"$"+k, "(Array Int "+srt+")")) + " " + n.E + ")"}, true
+	case "msgval":
+		// abstract content of a message (two live messages are proto.Equal iff same type and same msgval)
+		m := c.eval(env, x.Args[0])
+		ref := m.E
+		if c.ty.SortOf(m.T) == sIface {
+			ref = "(i-val " + m.E + ")"
+		}
+		return Val{T: tMath, E: c.msgVal(env.st, ref)}, true
+	case "filtered":
+		// filtered(v, paths): content of a message with content v after fmutils.Filter(_, paths)
+		v, p := c.eval(env, x.Args[0]), c.eval(env, x.Args[1])
+		c.sc.Decl("filterval", "(declare-fun |filterval| (Int Int) Int)")
+		return Val{T: tMath, E: "(|filterval| " + v.E + " (s-arr " + p.E + "))"}, true
+	case "emptymsg":
+		m := c.eval(env, x.Args[0])
+		c.sc.Decl("emptyval", "(declare-fun |emptyval| (Int) Int)")
+		return Val{T: tMath, E: "(|emptyval| (i-tag " + m.E + "))"}, true
+	case "pathsvalid":
+		// pathsvalid(paths, msg): the field mask paths are valid for msg's type (what FieldMask.IsValid checks)
+		pv, m := c.eval(env, x.Args[0]), c.eval(env, x.Args[1])
+		c.sc.Decl("pathsvalid", "(declare-fun |pathsvalid| (Int Int) Bool)")
+		if mt := derefMsgType(m.Dyn); mt != nil && !canFilterPanic(mt, map[string]bool{}, 0) {
+			// the message type has no repeated-scalar or map field anywhere: fmutils cannot panic whatever the paths are
+			return Val{T: tBool, E: "true"}, true
+		}
+		return Val{T: tBool, E: "(or (= (s-len " + pv.E + ") 0) (|pathsvalid| (s-arr " + pv.E + ") (i-tag " + m.E + ")))"}, true
+	case "isfunc":
+		// isfunc(v, Name$1): the function value v is (a closure of) the named function of the contract's package
+		v := c.eval(env, x.Args[0])
+		var name string
+		switch a := x.Args[1].(type) {
+		case *EIdent:
+			name = a.Name
+		case *ESel:
+			name = calleeName(a)
+		}
+		fn := c.eng.funcByKey[env.specPkg+"."+name]
+		if fn == nil {
+			panic(specError("isfunc: unknown function " + name))
+		}
+		return Val{T: tBool, E: fmt.Sprintf("(= %s %d)", c.cloFn(v.E), c.eng.fnID(fn))}, true
+	case "msgframe":
+		// msgframe(a, b, ...): the abstract content of every message other than the listed ones is unchanged since old()
+		var cs []string
+		for i := range x.Args {
+			m := c.eval(env, x.Args[i])
+			ref := m.E
+			if c.ty.SortOf(m.T) == sIface {
+				ref = "(i-val " + m.E + ")"
+			}
+			cs = append(cs, "(distinct r "+ref+")")
+		}
+		if env.old == nil {
+			panic(specError("msgframe outside a postcondition"))
+		}
+		now, before := c.heapGet(env.st, c.msgHeap()), c.heapGet(env.old, c.msgHeap())
+		return Val{T: tBool, E: fmt.Sprintf("(forall ((r Int)) (! (=> (and %s (< r %s)) (= (select %s r) (select %s r))) :pattern ((select %s r))))", And(cs...), env.old.alloc, now, before, now)}, true
+	case "isunion":
+		r, a, b := c.eval(env, x.Args[0]), c.eval(env, x.Args[1]), c.eval(env, x.Args[2])
+		c.sc.Decl("isunion", "(declare-fun |isunion| (Int Int Int) Bool)")
+		return Val{T: tBool, E: "(|isunion| " + r.E + " " + a.E + " " + b.E + ")"}, true
+	case "ref":
+		// ref(x): the address of the object an interface/pointer value denotes
+		v := c.eval(env, x.Args[0])
+		return Val{T: tMath, E: refOf(c, v)}, true
+	case "sametype":
+		a, b := c.eval(env, x.Args[0]), c.eval(env, x.Args[1])
+		return Val{T: tBool, E: "(= (i-tag " + a.E + ") (i-tag " + b.E + "))"}, true
+	case "equalmsg":
+		a, b := c.eval(env, x.Args[0]), c.eval(env, x.Args[1])
+		if a.E == "NIL" {
+			a = Val{T: b.T, E: c.ty.Zero(b.T)}
+		}
+		if b.E == "NIL" {
+			b = Val{T: a.T, E: c.ty.Zero(a.T)}
+		}
+		return Val{T: tBool, E: c.protoEqualTerm(env.st, a.E, b.E)}, true
+	case "calls":
+		name := x.Args[0].(*EIdent).Name
+		return Val{T: tMath, E: c.heapGet(env.st, c.comp("ghost$calls$"+name, "Int"))}, true
+	case "lastarg":
+		name := x.Args[0].(*EIdent).Name
+		k := x.Args[1].(*EInt).V
+		comp := "ghost$arg$" + name + "$" + k
+		t, ok := c.trackArgT[comp]
+		if !ok {
+			panic(specError("lastarg(" + name + "," + k + "): no tracked call"))
+		}
+		return Val{T: t, E: c.heapGet(env.st, comp)}, true
 	case "held", "heldW":
 		m := c.eval(env, x.Args[0])
 		if x.Fun == "heldW" {
@@ -130,6 +235,23 @@ func (c *FnCtx) cancelComp() string  { return c.comp("ghost$cancelled", "(Array 
 func (e *Engine) callbackSpec(t types.Type) *CallbackSpec {
 	if n, ok := t.(*types.Named); ok && n.Obj().Pkg() != nil {
 		if cb := e.specs.Callbacks[n.Obj().Pkg().Path()+"."+n.Obj().Name()]; cb != nil {
+			return cb
+		}
+	}
+	return nil
+}
+
+// callbackSpecFor: declaration by function type, or by the struct field / interface method the value came from
+// (`//@ callback WriteRequest.expectedCheck: pure`, `//@ callback Clock.Now: modifies nothing`).
+func (e *Engine) callbackSpecFor(t types.Type, from string) *CallbackSpec {
+	if cb := e.callbackSpec(t); cb != nil {
+		return cb
+	}
+	if from == "" {
+		return nil
+	}
+	for k, cb := range e.specs.Callbacks {
+		if strings.HasSuffix(k, "."+from) || cb.Name == from {
 			return cb
 		}
 	}
@@ -163,6 +285,12 @@ func (e *Engine) patternMods(c *FnCtx, pats []string) *modSet {
 		case strings.Contains(p, "."):
 			k := strings.LastIndex(p, ".")
 			m.comps["H$"+p[:k]+"$"+p[k+1:]] = true
+			// Type.field without the package qualifier
+			for _, cn := range e.compOrder {
+				if strings.HasPrefix(cn, "H$") && strings.HasSuffix(cn, "."+p[:k]+"$"+p[k+1:]) {
+					m.comps[cn] = true
+				}
+			}
 		default:
 			m.comps[p] = true
 		}
@@ -172,10 +300,28 @@ func (e *Engine) patternMods(c *FnCtx, pats []string) *modSet {
 
 func (e *Engine) isMessageComp(k string) bool {
 	return strings.HasPrefix(k, "H$traits.") || strings.HasPrefix(k, "H$types.") || strings.HasPrefix(k, "H$timestamppb.") ||
-		strings.HasPrefix(k, "H$durationpb.") || strings.HasPrefix(k, "H$fieldmaskpb.") || strings.HasPrefix(k, "H$time.") || k == "ghost$msg"
+		strings.HasPrefix(k, "H$durationpb.") || strings.HasPrefix(k, "H$time.") || strings.HasPrefix(k, "H$wrapperspb.")
 }
 
-func (e *Engine) invokeMods(c *FnCtx, call *ssa.CallCommon) *modSet { return nil }
+func (e *Engine) invokeMods(c *FnCtx, call *ssa.CallCommon) *modSet {
+	if cb := e.callbackSpecFor(nil, shortIfaceName(call.Value.Type())+"."+call.Method.Name()); cb != nil {
+		if cb.Pure {
+			return newModSet()
+		}
+		m := e.patternMods(c, cb.Modifies)
+		m.alloc = true
+		return m
+	}
+	if isProtoreflectType(call.Value.Type()) {
+		return newModSet()
+	}
+	if pi := e.preludeInvoke(call.Value.Type(), call.Method); pi != nil {
+		m := newModSet()
+		m.alloc = true
+		return m
+	}
+	return nil
+}
 
 // ---- library knowledge ----
 
@@ -277,6 +423,14 @@ func init() {
 	preludeInvTable["(context.Context).Err"] = ctxFresh
 	preludeInvTable["(context.Context).Deadline"] = ctxFresh
 	preludeInvTable["(context.Context).Value"] = ctxFresh
+	preludeInvTable["(google.golang.org/protobuf/reflect/protoreflect.ProtoMessage).ProtoReflect"] = func(c *FnCtx, fr *Frame, st *State, recv Val, m *types.Func, args []Val, pos token.Pos) *Val {
+		resT := m.Type().(*types.Signature).Results()
+		r := c.uninterp(st, "inv$proto.Message.ProtoReflect", []Val{recv}, resT)
+		fI := q("inv$protoreflect.Message.Interface$0")
+		c.sc.Decl("uf:"+fI, "(declare-fun "+fI+" (Iface) Iface)")
+		c.assume(st, "(and (= ("+fI+" "+r.E+") "+recv.E+") (not (= (i-tag "+r.E+") 0)))")
+		return r
+	}
 	// time.Duration is an int64 count of nanoseconds
 	idArg := func(c *FnCtx, fr *Frame, st *State, fn *ssa.Function, args []Val, pos token.Pos) *Val {
 		return &Val{T: fn.Signature.Results().At(0).Type(), E: args[0].E}
